@@ -14,7 +14,7 @@ from ..spec import spec_from_yaml_doc, parse_addr
 from ..verdict import Acc
 
 SIZES = {"quick": dict(n_docs=150, steps=120, n_bases=24, per_op=1),
-         "thorough": dict(n_docs=4000, steps=300, n_bases=260, per_op=12)}
+         "thorough": dict(n_docs=30000, steps=300, n_bases=900, per_op=12)}
 
 REQUIRED = ["subnets", "topology", "sensitive_hosts", "os", "services",
             "processes", "exploits", "privilege_escalation",
